@@ -83,7 +83,7 @@ def run(ctx: Ctx) -> None:
         ctx.lean_audit(MODULES)
         if not ctx.quick:
             ctx.lean_check_olean(MODULES)
-    evalenv.configure_cer_based()
+    E.configure(ctx.rng)  # evaluators / providers suspend under a random schedule half of the time
     rng = ctx.rng
     pool = [e for _, e in EC.gen_exprs(ctx, ctx.pick(150, 800), 5, 2) if E.well_formed(e) and not E.invalid_at(e)]
     cases = []
